@@ -456,6 +456,7 @@ func delivery(c *runner.Ctx, p string, x []byte, whole *work.Dec, det detail) {
 	if len(x) > 64<<10 && !c.Rand.Chance(1, 8) {
 		return
 	}
+	clobbered(c, p, x, whole, det)
 	rng := c.Rand.Fork()
 	for _, mode := range []string{"1-byte", "chunks"} {
 		if mode == "1-byte" && len(x) > 8<<10 && !c.Rand.Chance(1, 4) {
@@ -483,5 +484,49 @@ func delivery(c *runner.Ctx, p string, x []byte, whole *work.Dec, det detail) {
 			c.Violation(fmt.Sprintf("delivery/%s/differ/%s", p, treecmp.KeyPath(diffs)),
 				fmt.Sprintf("%s gives a different structure when the bytes arrive through a %s reader: %s\n%s", p, mode, strings.Join(diffs, "; "), det.Desc), det)
 		}
+	}
+}
+
+// clobbered decodes through the io.Reader path from a *bytes.Buffer the caller owns and recycles: after
+// the decode returned, the buffer's storage is overwritten and the buffer refilled with other bytes.
+// The io.Reader decoders copy what they keep, so the structure must still equal the one decoded from
+// an untouched source.
+func clobbered(c *runner.Ctx, p string, x []byte, whole *work.Dec, det detail) {
+	if p != work.PBox && p != work.PFile {
+		return
+	}
+	store := make([]byte, len(x), len(x)+64)
+	copy(store, x)
+	buf := bytes.NewBuffer(store)
+	d := &work.Dec{Path: p}
+	d.Panic = c.Guard(func() {
+		if p == work.PBox {
+			d.Box, d.Err = mp4.DecodeBox(0, buf)
+		} else {
+			d.File, d.Err = mp4.DecodeFile(buf)
+		}
+	})
+	c.Evals(1)
+	c.Count("delivery_compared/bytes.Buffer-recycled", 1)
+	if d.Panic != nil {
+		c.Count("panics_left_to_C04", 1)
+		return
+	}
+	d.OK = d.Err == nil
+	for i := range store[:cap(store)] {
+		store[:cap(store)][i] = 0xA5
+	}
+	buf.Reset()
+	for i := 0; i < len(x)+32; i++ {
+		buf.WriteByte(byte(0x5A + i))
+	}
+	if !d.OK {
+		c.Violation(fmt.Sprintf("delivery/%s/bytes.Buffer/rejects/%s", p, culpritType(x, d.Err)),
+			fmt.Sprintf("%s accepts the %d bytes from a bytes.Reader but rejects them from a bytes.Buffer: %v\n%s", p, len(x), d.Err, det.Desc), det)
+		return
+	}
+	if diffs := treecmp.Diff(whole.Obj(), d.Obj(), treecmp.Options{}); len(diffs) > 0 {
+		c.Violation(fmt.Sprintf("delivery/%s/bytes.Buffer-recycled/differ/%s", p, treecmp.KeyPath(diffs)),
+			fmt.Sprintf("%s from a *bytes.Buffer: after the caller recycled the buffer the decoded structure differs from the one decoded from an untouched source: %s\n%s", p, strings.Join(diffs, "; "), det.Desc), det)
 	}
 }
